@@ -110,6 +110,11 @@ func oracle(c *Case, sems []sem) (fs []finding, wbUntil int, stats map[string]in
 					e.removed = true
 				}
 			}
+		case "dbfault":
+			// A failing database is not among the faults the property quantifies over: the
+			// candidate of that poll is gone (pruned before the stored head is read / written),
+			// so "head = top" is not demanded any more; the unconditional clauses still are.
+			notWB(i, "database-failure")
 		case "tick":
 			ticks++
 			F := s.fin
